@@ -72,8 +72,24 @@ fn lib_ctx(k: &[u8; 16]) -> Box<dyn GenericSecurityService> {
 }
 
 /// the same context obtained from a real handshake (exercises the library's own key derivation)
-fn lib_ctx_handshake(k: &[u8; 16]) -> Result<Box<dyn GenericSecurityService>, String> {
+/// `earlier`: the same Ntlm object first completes another handshake (other session key, a CHALLENGE without VERSION
+/// and with other AV pairs) and builds a context from it; the judged context is that of its second handshake
+fn lib_ctx_handshake(k: &[u8; 16], earlier: bool) -> Result<Box<dyn GenericSecurityService>, String> {
     let mut n = Ntlm::new("dom".into(), "user".into(), "pw".into());
+    if earlier {
+        n.create_negotiate_message().map_err(|e| format!("{:?}", e))?;
+        let mut cfg1 = ServerCfg::windows_like();
+        cfg1.flags &= !rn::F_VERSION;
+        cfg1.challenge = [0x5a; 8];
+        let mut pattern = vec![0x11; 8];
+        pattern.extend_from_slice(&[0xC3; 16]);
+        rnd::set_pattern(Some(pattern));
+        let r = n.read_challenge_message(&rn::challenge_message(&cfg1));
+        rnd::set_pattern(None);
+        r.map_err(|e| format!("earlier handshake: {:?}", e))?;
+        let mut first = n.build_security_interface();
+        let _ = first.gss_wrapex(b"first session");
+    }
     n.create_negotiate_message().map_err(|e| format!("{:?}", e))?;
     let cfg = ServerCfg::windows_like();
     // random(8) = client challenge, random(16) = exported session key
@@ -117,9 +133,16 @@ impl Prop for C16 {
         }
         let mut seqs = vec![];
         rec(&ops, depth, &mut vec![], &mut seqs);
+        if tier != Tier::Quick {
+            // depth 5 and 6 over the lengths {0, 1, 16, 256}
+            let small: Vec<Op> = [0usize, 1, 16, 256].iter().flat_map(|l| [Op::Wrap(*l), Op::Unwrap(*l)]).collect();
+            let mut deep = vec![];
+            rec(&small, 6, &mut vec![], &mut deep);
+            seqs.extend(deep.into_iter().filter(|s| s.len() >= 5));
+        }
         for key in 0..nk {
             for s in &seqs {
-                // the handshake-derived context for the shorter sequences, the constructor for all
+                // the handshake-derived context for the shorter sequences (for every second session key the Ntlm object has completed an earlier handshake with another key before), the constructor for all
                 cs.push(Case::Sequence { key, ops: s.clone(), via_handshake: false });
                 if s.len() <= 2 {
                     cs.push(Case::Sequence { key, ops: s.clone(), via_handshake: true });
@@ -192,7 +215,7 @@ impl Prop for C16 {
         json!({"idx": idx, "case": self.cases[idx as usize], "keys": keys().iter().map(|k| hex(k)).collect::<Vec<_>>()})
     }
     fn rule(&self) -> String {
-        "cases: [sequence] every sequence of <=3 (<=4 thorough) operations over {wrap(len), unwrap(peer-sealed len)} with len in {0,1,2,3,15,16,17,255,256,1000}, for 5 exported session keys, on the context built by the public constructor and (sequences <=2) on the one built by a real NEGOTIATE/CHALLENGE handshake: every wrap output must be byte-identical to reference MS-NLMP SEAL+SIGN with carried-over cipher state and sequence numbers, every unwrap must return the plaintext; plus long-lived contexts (300 wraps, 300 unwraps, 600 alternating, 260 unwraps then 260 wraps: the sequence numbers pass 256 in each direction) and messages of 65519..200000 bytes followed by further traffic; every length 0..1100 and 2^k-5..2^k+4 (k = 11..16) sealed / unsealed / both in one context; [tamper] for every peer-sealed message of length 0..17, 100, 256 at stream position 0 and 1: every single-bit flip, truncations, extensions by 1..3 bytes, reflection, rewritten sequence numbers: all must be rejected. Non-trivial: sequences of >=2 operations and all tamper cases.".into()
+        "cases: [sequence] every sequence of <=3 (<=4 thorough; thorough also every sequence of 5 and 6 operations with len in {0,1,16,256}) operations over {wrap(len), unwrap(peer-sealed len)} with len in {0,1,2,3,15,16,17,255,256,1000}, for 5 exported session keys, on the context built by the public constructor and (sequences <=2) on the one built by a real NEGOTIATE/CHALLENGE handshake (for every second session key the same Ntlm object has completed an earlier handshake, with another key, before): every wrap output must be byte-identical to reference MS-NLMP SEAL+SIGN with carried-over cipher state and sequence numbers, every unwrap must return the plaintext; plus long-lived contexts (300 wraps, 300 unwraps, 600 alternating, 260 unwraps then 260 wraps: the sequence numbers pass 256 in each direction) and messages of 65519..200000 bytes followed by further traffic; every length 0..1100 and 2^k-5..2^k+4 (k = 11..16) sealed / unsealed / both in one context; [tamper] for every peer-sealed message of length 0..17, 100, 256 at stream position 0 and 1: every single-bit flip, truncations, extensions by 1..3 bytes, reflection, rewritten sequence numbers: all must be rejected. Non-trivial: sequences of >=2 operations and all tamper cases.".into()
     }
     fn assumptions(&self) -> Vec<String> {
         vec![
@@ -206,7 +229,7 @@ impl Prop for C16 {
             Case::Sequence { key, ops, via_handshake } => {
                 let k = keys()[key];
                 let mut lib = if via_handshake {
-                    match lib_ctx_handshake(&k) {
+                    match lib_ctx_handshake(&k, key % 2 == 1) {
                         Ok(c) => c,
                         Err(e) => return Outcome::fail("error", "handshake-failed", e),
                     }
